@@ -1,5 +1,5 @@
 """C08 -- grid landscapes stay within half a step of the true landscape."""
-from .. import tlc
+from .. import tlc, lazy
 from ..common import EXACT_EMBS, DEC_EMBS, unfl, run_driver_parallel
 
 RULE = ("M: GridLandscape.tla -- compute_landscape as a machine (SnapAll, one AddRamp per bar, SortColumns, Assemble) for every multiset "
@@ -150,7 +150,7 @@ def validate(ctx, gcs, embs, label, nproc=12):
 
 def run(ctx):
     quick = ctx.tier == "quick"
-    ctx.rule = RULE
+    ctx.rule = RULE + lazy.RULE
     ctx.assumptions += ["grid covers the diagram; finite bars of positive length; endpoints on a tick lattice under affine embeddings",
                         "vectorize is compared with the true landscape except on inputs where the as-coded exact sweep fires its repeated-bar shortcut (C03 known finding), which are counted as excluded"]
     import concurrent.futures as cf
@@ -171,8 +171,11 @@ def run(ctx):
     embs = [embs_all[i % len(embs_all)] for i in range(n)]
     validate(ctx, gcs, embs, "V")
 
+    lazy.run(ctx, "C08", quick)
 
 def replay(ctx, rec):
+    if rec["case"].get("kind") == "lazy":
+        return lazy.replay(ctx, rec)
     c = rec["case"]
     e = next(x for x in EXACT_EMBS + DEC_EMBS if x.name == c["emb"])
     validate(ctx, [c["gc"]], [e], "replay", nproc=1)
